@@ -52,7 +52,8 @@ def run(ctx):
     for idx in verdict["badGrammar"]:
         x = runs[owner[idx - 1]]
         ev = events[idx - 1]
-        key = "grammar:%s:%s" % (ev["phase"], "box-hash" if x["run"]["settings"] else "default")
+        st = json.dumps(x["run"]["settings"])
+        key = "grammar:%s:%s" % (ev["phase"], "box-hash" if "compress" in st else ("merkle" if "merkle" in st else "default"))
         if (key, owner[idx - 1]) in seen:
             continue
         seen.add((key, owner[idx - 1]))
